@@ -57,9 +57,9 @@ static Runner G;
 // ---------------------------------------------------------------------------------------------
 // families, ops
 
-enum Fam { F_PGETV, F_PGET_TYPED, F_GET, F_READX, F_READ, F_SUB, F_SUBX, F_SKIP, F_CSTR, F_LINE, F_TRUNC, F_BUFW, F_STRW, F_HISTORY, F_PAST, F_ALIAS, NFAM };
+enum Fam { F_PGETV, F_PGET_TYPED, F_GET, F_READX, F_READ, F_SUB, F_SUBX, F_SKIP, F_CSTR, F_LINE, F_TRUNC, F_BUFW, F_STRW, F_HISTORY, F_PAST, F_ALIAS, F_VIEWS, NFAM };
 static const char* const FAM_NAME[NFAM] = {"pgetv", "pget_typed", "get", "readx", "read", "sub", "subx", "skip", "cstr", "get_line",
-                                           "truncate", "buffer_writer", "string_writer", "history", "cursor_past_end", "string_writer_alias"};
+                                           "truncate", "buffer_writer", "string_writer", "history", "cursor_past_end", "string_writer_alias", "derived_views"};
 
 enum Op {
   OP_PGETV, OP_PGET_T, OP_PGET_W1, OP_PGET_W2, OP_PGET_W3, OP_PGET_W4, OP_PGET_W6, OP_PGET_W8,
@@ -71,6 +71,7 @@ enum Op {
   OP_BW_PPUT_W1, OP_BW_PPUT_W2, OP_BW_PPUT_W4, OP_BW_PPUT_W8, OP_BW_PUT_W1, OP_BW_PUT_W2, OP_BW_PUT_W4, OP_BW_PUT_W8,
   OP_SW_PPUT_W1, OP_SW_PPUT_W2, OP_SW_PPUT_W4, OP_SW_PPUT_W8, OP_SW_APPEND,
   OP_SWA_PUT, OP_SWA_WRITE, OP_SWA_WRITE_S, OP_SWA_PPUT,
+  OP_VW_PARENT, OP_VW_SUB, OP_VW_SUB_BITS, OP_VW_PTR,
   NOPS
 };
 static const char* const OP_NAME[NOPS] = {
@@ -82,7 +83,8 @@ static const char* const OP_NAME[NOPS] = {
     "bw.pwrite", "bw.pwrite(str)", "bw.write", "bw.write(str)",
     "bw.pput:w1", "bw.pput:w2", "bw.pput:w4", "bw.pput:w8", "bw.put:w1", "bw.put:w2", "bw.put:w4", "bw.put:w8",
     "sw.pput:w1", "sw.pput:w2", "sw.pput:w4", "sw.pput:w8", "sw.append",
-    "sw.put<T>(alias)", "sw.write(alias)", "sw.write(own str)", "sw.pput<T>(alias)"};
+    "sw.put<T>(alias)", "sw.write(alias)", "sw.write(own str)", "sw.pput<T>(alias)",
+    "view:parent-op", "view:sub-reader", "view:bit-reader", "view:pointer"};
 static_assert(NOPS <= MAX_OPS, "op table too small");
 
 static int width_slot6(int w) { return w == 1 ? 0 : w == 2 ? 1 : w == 3 ? 2 : w == 4 ? 3 : w == 6 ? 4 : 5; }
@@ -211,6 +213,8 @@ static int acc_get(int ti) { return NOPS + 2 * ti + 1; }
 enum { WK_BW_PUT, WK_BW_PPUT, WK_SW_PPUT, WK_SW_PUT };
 static int acc_w(int wi, int which) { return NOPS + 2 * NTR + 4 * wi + which; }
 
+static string render_view_case(const K& k);
+
 // human-readable call of a case
 static string render_call(const K& k) {
   const string& nm = G.names.acc[k.acc];
@@ -242,6 +246,7 @@ static string render_call(const K& k) {
     case OP_SW_PPUT_W1: case OP_SW_PPUT_W2: case OP_SW_PPUT_W4: case OP_SW_PPUT_W8:
       return fmt("StringWriter holding n bytes: %s(offset=0x%" PRIx64 ", v)", nm.c_str(), k.a);
     case OP_SW_APPEND: return fmt("StringWriter holding n bytes: %s(v)", nm.c_str());
+    case OP_VW_PARENT: case OP_VW_SUB: case OP_VW_SUB_BITS: case OP_VW_PTR: return render_view_case(k);
     case OP_SWA_PUT:
       return fmt("StringWriter w holding n bytes (capacity %" PRIu64 "): w.put<%d-byte record>(ref) with ref = %s at w.str()[%" PRIu64 "]", k.cur0, (int)k.b,
                  k.adv == 0 ? "StringReader(w.str()).pget<T>(off)" : k.adv == 1 ? "StringReader(w.str()).get<T>()" : "*reinterpret_cast<const T*>(w.str().data()+off)", k.a);
@@ -1469,6 +1474,243 @@ static void table_alias() {
     }
 }
 
+// ---------------------------------------------------------------------------------------------
+// Derived views survive parent operations.  A sub-reader / BitReader / pointer handed out by a reader
+// denotes bytes of the underlying buffer; nothing the parent does afterwards (truncate, cursor movement,
+// reads, being copied, moved or assigned) may free, move or modify those bytes.  Parents: raw exact-size
+// and guard-paged buffers, a non-owning reader over a std::string, an owning reader whose shared_ptr has
+// a second holder, and an owning reader that is the SOLE owner of its string (the caller dropped its
+// reference) - the only kind for which "nobody else uses this string" looks true from inside the reader.
+
+enum VBack { VB_HEAP, VB_GUARD, VB_STRING, VB_SHARED2, VB_SOLE, VB_SOLE_COPY, NVBACK };
+static const char* const VBACK_NAME[NVBACK] = {"StringReader(malloc'd ptr,n)", "StringReader(guard-paged ptr,n)", "StringReader(const string&)",
+                                               "StringReader(shared_ptr<string>) + caller keeps its shared_ptr",
+                                               "StringReader(make_shared<string>(...)) as sole owner", "sole-owner reader reached through a copy of it"};
+enum VKind { VK_SUB2, VK_SUBX2, VK_SUB1, VK_SUBX1, VK_SUB_BITS, VK_SUBX_BITS, VK_PGETV, VK_PGET_T, VK_PEEK, VK_GETV, VK_GET_T, NVKIND };
+static const char* const VKIND_NAME[NVKIND] = {"sub(off,len)", "subx(off,len)", "sub(off)", "subx(off)", "sub_bits(off,len)", "subx_bits(off,len)",
+                                               "pgetv(off,len)", "&pget<T>(off,len)", "go(off); peek(len)", "go(off); getv(len)", "go(off); &get<T>(true,len)"};
+enum VScen {
+  VS_NONE, VS_TRUNC_EQ, VS_TRUNC_M1, VS_TRUNC_HALF, VS_TRUNC_1, VS_TRUNC_0, VS_TRUNC_GROW, VS_TRUNC_TWICE, VS_GO_IN, VS_GO_PAST, VS_SKIP_IN, VS_SKIP_PAST,
+  VS_READS, VS_GETS, VS_LINE_CSTR, VS_SUBS, VS_COPY_DROP, VS_COPY_TRUNC_COPY, VS_COPY_TRUNC_PARENT, VS_MOVE_TRUNC, VS_ASSIGN_SELFCOPY, VS_TRUNC_THEN_READS,
+  VS_TRUNC_HALF_GO0_READALL, NVSCEN
+};
+static const char* const VSCEN_NAME[NVSCEN] = {
+    "(nothing)", "truncate(n)", "truncate(n-1)", "truncate(n/2)", "truncate(1)", "truncate(0)", "truncate(n+1) [throws]", "truncate(n/2); truncate(n/4)",
+    "go(n/2)", "go(n+5)", "skip(n/2)", "skip(n+1) [throws]", "read(n/2); readx(1); read(buf,n)", "get_u8; get_u32l; get_u64b", "get_line; get_cstr",
+    "sub(1,n); subx(0,n); sub_bits(0,n) on the parent", "copy the parent, destroy the copy", "copy the parent, truncate(n/2) the copy, destroy it",
+    "copy the parent, truncate(n/2) the parent, destroy the copy, truncate(n/4) the parent", "move the parent into a new reader, truncate(n/2) it",
+    "parent = copy of parent; truncate(n/2)", "truncate(n/2); pread/all/pgetv on the parent", "truncate(n/2); go(0); read(n); truncate(0)"};
+
+struct VParent {
+  unique_ptr<Mem> mem;                // raw / string backings
+  shared_ptr<string> caller_ref;      // VB_SHARED2 only
+  unique_ptr<StringReader> r;
+  unique_ptr<StringReader> first;     // VB_SOLE_COPY: the reader the copy was made from (kept alive => use_count 2 ... then dropped)
+  vector<uint8_t> original;
+  const uint8_t* base = nullptr;
+  u64 n;
+  VParent(int back, u64 n_) : n(n_) {
+    original = make_content(n, n % 3 == 0 ? V_LINES : n % 3 == 1 ? V_ZEROS : V_PLAIN);
+    if (back == VB_HEAP || back == VB_GUARD || back == VB_STRING) {
+      mem.reset(new Mem(back == VB_HEAP ? B_HEAP : back == VB_GUARD ? B_GR : B_STR, n));
+      mem->fill(original);
+      if (back == VB_STRING) r.reset(new StringReader(*mem->str));
+      else r.reset(new StringReader(mem->data, n));
+    } else {
+      auto sp = make_shared<string>((const char*)original.data(), n);
+      sp->shrink_to_fit();
+      if (back == VB_SHARED2) caller_ref = sp;
+      if (back == VB_SOLE_COPY) {
+        StringReader tmp(std::move(sp));
+        r.reset(new StringReader(tmp));  // tmp dies here: the copy is now the sole owner
+      } else {
+        r.reset(new StringReader(std::move(sp)));
+      }
+    }
+    base = r->data;
+  }
+};
+struct VView {
+  int kind;
+  u64 off, len;
+  StringReader sr;
+  BitReader br;
+  const uint8_t* p = nullptr;
+  bool ok = false;  // taken successfully and numerically inside the parent
+};
+
+static VView take_view(VParent& P, int kind, u64 off, u64 len) {
+  VView v;
+  v.kind = kind;
+  v.off = off;
+  v.len = len;
+  StringReader& r = *P.r;
+  Caught ex = guarded([&] {
+    switch (kind) {
+      case VK_SUB2: v.sr = r.sub(off, len); break;
+      case VK_SUBX2: v.sr = r.subx(off, len); break;
+      case VK_SUB1: v.sr = r.sub(off); v.len = P.n - off; break;
+      case VK_SUBX1: v.sr = r.subx(off); v.len = P.n - off; break;
+      case VK_SUB_BITS: v.br = r.sub_bits(off, len); break;
+      case VK_SUBX_BITS: v.br = r.subx_bits(off, len); break;
+      case VK_PGETV: v.p = (const uint8_t*)r.pgetv(off, len); break;
+      case VK_PGET_T: v.p = &r.pget<uint8_t>(off, len); break;
+      case VK_PEEK: r.go(off); v.p = (const uint8_t*)r.peek(len); break;
+      case VK_GETV: r.go(off); v.p = (const uint8_t*)r.getv(len); break;
+      case VK_GET_T: r.go(off); v.p = &r.get<uint8_t>(true, len); break;
+    }
+  });
+  if (ex.e != E_NONE) return v;
+  // only views that the other stages would accept are followed (extent checked numerically)
+  if (kind <= VK_SUBX1) v.ok = v.sr.length == v.len && (v.len == 0 || v.sr.data == P.base + off);
+  else if (kind <= VK_SUBX_BITS) v.ok = v.br.length == v.len * 8 && (v.len == 0 || v.br.data == P.base + off);
+  else v.ok = v.p == P.base + off;
+  return v;
+}
+
+static void apply_scenario(VParent& P, int sc, vf::Rng* rnd) {
+  u64 n = P.n;
+  StringReader& r = *P.r;
+  uint8_t* sink = (uint8_t*)malloc(n + 1);
+  auto quiet = [&](const function<void()>& f) { (void)guarded(f); };
+  switch (sc) {
+    case VS_NONE: break;
+    case VS_TRUNC_EQ: quiet([&] { r.truncate(n); }); break;
+    case VS_TRUNC_M1: quiet([&] { r.truncate(n - 1); }); break;
+    case VS_TRUNC_HALF: quiet([&] { r.truncate(n / 2); }); break;
+    case VS_TRUNC_1: quiet([&] { r.truncate(1); }); break;
+    case VS_TRUNC_0: quiet([&] { r.truncate(0); }); break;
+    case VS_TRUNC_GROW: quiet([&] { r.truncate(n + 1); }); break;
+    case VS_TRUNC_TWICE: quiet([&] { r.truncate(n / 2); r.truncate(n / 4); }); break;
+    case VS_GO_IN: r.go(n / 2); break;
+    case VS_GO_PAST: r.go(n + 5); break;
+    case VS_SKIP_IN: quiet([&] { r.go(0); r.skip(n / 2); }); break;
+    case VS_SKIP_PAST: quiet([&] { r.go(0); r.skip(n + 1); }); break;
+    case VS_READS: quiet([&] { r.go(0); r.read(n / 2); r.readx(1); r.go(0); r.read(sink, n); }); break;
+    case VS_GETS: quiet([&] { r.go(0); r.get_u8(); r.get_u32l(); r.get_u64b(); }); break;
+    case VS_LINE_CSTR: quiet([&] { r.go(0); r.get_line(); }); quiet([&] { r.go(0); r.get_cstr(); }); break;
+    case VS_SUBS: quiet([&] { auto a = r.sub(1, n); auto b = r.subx(0, n); auto c = r.sub_bits(0, n); (void)a; (void)b; (void)c; }); break;
+    case VS_COPY_DROP: quiet([&] { StringReader c(r); c.go(1); }); break;
+    case VS_COPY_TRUNC_COPY: quiet([&] { StringReader c(r); c.truncate(n / 2); c.read(n); }); break;
+    case VS_COPY_TRUNC_PARENT: quiet([&] { { StringReader c(r); r.truncate(n / 2); } r.truncate(n / 4); }); break;
+    case VS_MOVE_TRUNC: quiet([&] { unique_ptr<StringReader> m(new StringReader(std::move(r))); P.r = std::move(m); P.r->truncate(n / 2); }); break;
+    case VS_ASSIGN_SELFCOPY: quiet([&] { StringReader c(r); r = c; }); quiet([&] { P.r->truncate(n / 2); }); break;
+    case VS_TRUNC_THEN_READS: quiet([&] { r.truncate(n / 2); r.pread(0, n); r.all(); r.pgetv(0, n / 2); r.sub(0, n); }); break;
+    case VS_TRUNC_HALF_GO0_READALL: quiet([&] { r.truncate(n / 2); r.go(0); r.read(n); r.truncate(0); }); break;
+    default: {
+      // random sequence of parent operations
+      unsigned ops = 1 + (unsigned)rnd->below(6);
+      for (unsigned i = 0; i < ops; i++) {
+        u64 len = P.r->size();
+        switch (rnd->below(9)) {
+          case 0: quiet([&] { P.r->truncate(rnd->below(len + 1)); }); break;
+          case 1: quiet([&] { P.r->truncate(len ? len - 1 : 0); }); break;
+          case 2: P.r->go(rnd->below(len + 3)); break;
+          case 3: quiet([&] { P.r->skip(rnd->below(len + 2)); }); break;
+          case 4: quiet([&] { P.r->read(rnd->below(len + 2)); }); break;
+          case 5: quiet([&] { StringReader c(*P.r); c.truncate(rnd->below(len + 1)); }); break;
+          case 6: quiet([&] { unique_ptr<StringReader> m(new StringReader(std::move(*P.r))); P.r = std::move(m); }); break;
+          case 7: quiet([&] { StringReader c(*P.r); *P.r = c; }); break;
+          default: quiet([&] { P.r->get_line(); }); break;
+        }
+      }
+    }
+  }
+  free(sink);
+}
+
+static string render_view_case(const K& k) {
+  string sc = k.b < (u64)NVSCEN ? VSCEN_NAME[k.b] : fmt("random parent-op sequence #%" PRIu64, k.b - NVSCEN);
+  string back = k.var >= 0 && k.var < NVBACK ? VBACK_NAME[k.var] : "?";
+  if (k.op == OP_VW_PARENT) return fmt("parent = %s; views taken; then parent: %s", back.c_str(), sc.c_str());
+  return fmt("parent = %s; view = %s with off=%" PRIu64 " len=%" PRIu64 "; then parent: %s; then read through the view (parent size() now %" PRIu64 ")", back.c_str(),
+             k.adv >= 0 && k.adv < NVKIND ? VKIND_NAME[k.adv] : "?", k.a, k.cur0, sc.c_str(), (u64)k.pad_);
+}
+
+static void views_case(int back, u64 n, u64 sc, vf::Rng* rnd) {
+  VParent P(back, n);
+  // views over a few ranges, every kind
+  vector<pair<u64, u64>> ranges = {{0, n}, {0, n / 2}, {n / 2, n - n / 2}, {n / 4, n / 2}, {n - 1, 1}, {0, 1}};
+  if (n >= 4) ranges.push_back({1, 3});
+  vector<VView> views;
+  for (auto& rg : ranges)
+    for (int kind = 0; kind < NVKIND; kind++) {
+      if (rg.second == 0 || rg.first + rg.second > n) continue;
+      VView v = take_view(P, kind, rg.first, rg.second);
+      if (v.ok && v.len) views.push_back(std::move(v));
+    }
+  K kp;
+  memset(&kp, 0, sizeof(kp));
+  kp.fam = F_VIEWS;
+  kp.op = kp.acc = OP_VW_PARENT;
+  kp.buf = -1;
+  kp.var = back;
+  kp.n = n;
+  kp.b = sc;
+  kp.req = R_IN;
+  if (!G.start(kp)) return;
+  apply_scenario(P, (int)(sc < (u64)NVSCEN ? sc : NVSCEN), rnd);
+  G.end_call();
+  u64 now = P.r->size();
+  if (now > n) return G.viol(kp, "parent grew beyond its buffer");
+  G.hit(kp, O_SLICE);
+  for (VView& v : views) {
+    K k = kp;
+    k.op = k.acc = v.kind <= VK_SUBX1 ? OP_VW_SUB : v.kind <= VK_SUBX_BITS ? OP_VW_SUB_BITS : OP_VW_PTR;
+    k.adv = v.kind;
+    k.a = v.off;
+    k.cur0 = v.len;
+    k.pad_ = (int32_t)now;
+    // "in": the view still lies inside the parent's (possibly reduced) extent; "past-end": the parent was truncated below the view's end
+    k.req = v.off + v.len <= now ? R_IN : R_PAST;
+    if (!G.start(k, false)) continue;
+    const uint8_t* want = P.original.data() + v.off;
+    bool same = true;
+    string how;
+    Caught ex = guarded([&] {
+      if (v.kind <= VK_SUBX1) {
+        if (v.sr.size() != v.len) { same = false; how = "size() changed"; return; }
+        string a = v.sr.all();
+        string b = v.sr.pread(0, v.len);
+        v.sr.go(0);
+        uint8_t first = v.sr.get_u8();
+        same = a.size() == v.len && !memcmp(a.data(), want, v.len) && b == a && first == want[0];
+      } else if (v.kind <= VK_SUBX_BITS) {
+        if (v.br.size() != v.len * 8) { same = false; how = "size() changed"; return; }
+        u64 m = v.len < 64 ? v.len : 64;
+        for (u64 i = 0; i < m && same; i++) same = v.br.pread(i * 8, 8) == want[i];
+        if (same && v.len > 64) same = v.br.pread((v.len - 1) * 8, 8) == want[v.len - 1];
+      } else {
+        same = !memcmp(v.p, want, v.len);
+      }
+    });
+    G.end_call();
+    if (ex.e != E_NONE) { G.viol(k, "reading through the view threw " + ex.type); continue; }
+    if (!same) { G.viol(k, "bytes read through a view taken earlier are no longer the original bytes of that range" + (how.empty() ? string() : " (" + how + ")")); continue; }
+    G.hit(k, O_SLICE);
+  }
+}
+
+static void table_views() {
+  g_group = (u64)F_VIEWS * 5;
+  vector<u64> ns = {1, 2, 8, 15, 16, 17, 24, 31, 32, 33, 64, 100, 256, 1000, 4096};
+  if (C->thorough())
+    for (u64 x = 18; x <= 80; x++) ns.push_back(x);
+  for (u64 n : ns)
+    for (int back = 0; back < NVBACK; back++) {
+      if (!C->mine(g_group++)) continue;
+      for (u64 sc = 0; sc < (u64)NVSCEN; sc++) views_case(back, n, sc, nullptr);
+    }
+  // random parent-operation sequences
+  u64 total = C->qt<u64>(20000, 400000);
+  for (u64 h = C->shard; h < total; h += C->nshards) {
+    vf::Rng rnd(C->seed * 0x51ED27ULL + h * 0x9E3779B1ULL + 5);
+    u64 n = rnd.chance(1, 3) ? 16 + rnd.below(17) : rnd.chance(1, 2) ? 1 + rnd.below(15) : 33 + rnd.below(300);
+    int back = rnd.chance(1, 2) ? (rnd.chance(1, 2) ? VB_SOLE : VB_SOLE_COPY) : (int)rnd.below(NVBACK);
+    views_case(back, n, (u64)NVSCEN + h, &rnd);
+  }
+}
+
 static void table_strw() {
   g_group = (u64)F_STRW * 5;
   vector<u64> n0s = {0, 1, 3, 15, 16, 17, 64};
@@ -1619,6 +1861,7 @@ int main(int argc, char** argv) {
     if (want(FAM_NAME[st.fam])) G.run_family(st.fam, st.body);
   if (want("cursor_past_end")) G.run_family(F_PAST, table_past, false, true);
   if (want("string_writer_alias")) G.run_family(F_ALIAS, table_alias, false, true);
+  if (want("derived_views")) G.run_family(F_VIEWS, table_views, false, true);
   if (want("history")) G.run_family(F_HISTORY, histories_body, true);
 
   G.merge_into_ctx();
